@@ -565,10 +565,11 @@ fn run_e2e(c: &[u64]) -> Vec<u64> {
                 _ => return None,
             });
         }
-        for _ in 0..4 {
-            if cur.next()? != 0 {
-                return None;
-            }
+        // z1 z2: filled in after the run (fill_choice), the stored values are ignored
+        let z1 = cur.next()?;
+        let z2 = cur.next()?;
+        if z1 > 1_000_000 || z2 > 1 || cur.next()? != 0 || cur.next()? != 0 {
+            return None;
         }
         if cur.1 != c.len() {
             return None;
@@ -651,11 +652,6 @@ fn gen_e2e(rng: &mut Rng, thorough: bool) -> Vec<u64> {
     let mut nops = 0;
     let nmsgs = rng.range(1, if thorough { 10 } else { 6 });
     let mut unflushed = false;
-    // bytes queued since the last complete flush; a feed that finds BACKPRESSURE_BOUNDARY bytes queued makes
-    // poll_ready flush, and that flush is given up as soon as the count is below the boundary again: a close
-    // without a flush may then cut a frame in the middle (callers flush first), so such runs end with a flush
-    let mut queued = 0u64;
-    let mut force_flush = false;
     for i in 0..nmsgs {
         let b = (i * 2 + rng.below(2) * 100 + 3) % 256;
         let mut len = match tag {
@@ -673,27 +669,20 @@ fn gen_e2e(rng: &mut Rng, thorough: bool) -> Vec<u64> {
         if rng.chance(55) {
             ops.extend([1, b, len]);
             unflushed = true;
-            if queued >= 65536 {
-                force_flush = true;
-            }
-            queued += len + 10;
             if i == 0 || rng.chance(50) {
                 ops.push(2);
                 nops += 1;
                 unflushed = false;
-                queued = 0;
-                force_flush = false;
             }
         } else {
             ops.extend([3, b, len]);
             unflushed = false;
-            queued = 0;
-            force_flush = false;
         }
         nops += 1;
     }
-    // callers flush before closing; now and then the close comes first and the queued frames are dropped
-    if unflushed && (force_flush || rng.chance(80)) {
+    // callers flush before closing; often enough the close comes first: the frames that were only fed are not
+    // promised to the peer (some of them may be there: the backpressure flushes of poll_ready)
+    if unflushed && rng.chance(60) {
         ops.push(2);
         nops += 1;
     }
@@ -988,6 +977,25 @@ fn gen_case(rng: &mut Rng, thorough: bool) -> Vec<u64> {
     c
 }
 
+/// End-to-end kinds (10-22 yamux, 60-62 QUIC): the last four numbers of the case are `z1 z2 0 0`, the environment's
+/// share of the outcome, written here from the trace: z1 = frames the reader got, z2 = the accepting side saw the
+/// stream. The model takes them as given and the oracle judges whether they are an outcome the code allows.
+pub(crate) fn fill_choice(c: &mut [u64], t: &[u64]) {
+    let kind = c.first().copied().unwrap_or(0);
+    if !((10..=22).contains(&kind) || (60..=62).contains(&kind)) || c.len() < 7 {
+        return;
+    }
+    let nops = c[2] as usize;
+    let n = c.len();
+    if (t.first() == Some(&2) || t.first() == Some(&11)) && t.len() >= nops + 3 {
+        c[n - 4] = t[1 + nops].min(1_000_000);
+        c[n - 3] = (*t.last().unwrap() != 8) as u64;
+    } else {
+        c[n - 4] = 0;
+        c[n - 3] = 0;
+    }
+}
+
 pub fn main(args: &Args) {
     let seed = args.u64("seed", 1);
     let ncases = args.u64("cases", 100);
@@ -1003,7 +1011,9 @@ pub fn main(args: &Args) {
     }
     for c in stored.iter() {
         let t = catch_unwind(AssertUnwindSafe(|| run_case(c))).unwrap_or(vec![PANIC_MARK]);
-        out.emit(c, &t);
+        let mut c = c.clone();
+        fill_choice(&mut c, &t);
+        out.emit(&c, &t);
     }
     if args.str("replay").is_some() {
         return;
@@ -1012,12 +1022,13 @@ pub fn main(args: &Args) {
         let mut r = rng.fork();
         #[cfg(feature = "extra")]
         if args.str("extra").is_some() {
-            let c = crate::c04w::gen(&mut r, thorough);
+            let mut c = crate::c04w::gen(&mut r, thorough);
             let t = catch_unwind(AssertUnwindSafe(|| run_case(&c))).unwrap_or(vec![PANIC_MARK]);
+            fill_choice(&mut c, &t);
             out.emit(&c, &t);
             continue;
         }
-        let c = match i % 50 {
+        let mut c = match i % 50 {
             24 | 49 => gen_e2e(&mut r, thorough),
             3 | 13 | 23 | 33 | 43 | 8 | 28 => crate::c04x::gen_codec(&mut r, thorough),
             18 | 38 => crate::c04x::gen_framed(&mut r, thorough),
@@ -1026,6 +1037,7 @@ pub fn main(args: &Args) {
             _ => gen_case(&mut r, thorough),
         };
         let t = catch_unwind(AssertUnwindSafe(|| run_case(&c))).unwrap_or(vec![PANIC_MARK]);
+        fill_choice(&mut c, &t);
         out.emit(&c, &t);
     }
 }
